@@ -201,6 +201,11 @@ static void do_op(const char *op, int a, int b, const char *text)
         char *buf = fbuf(text, a);
         sim_phase(1); SIM_char_grow_bufferify(buf, (int)len_trim(buf, a), a); sim_phase(0); res_str(buf, a); free(buf);
     }
+    else if (!strcmp(op, "char_arr")) {
+        char *names = exact((size_t)a * b); memset(names, ' ', (size_t)a * b);
+        for (int i = 1; i <= a; i++) memset(names + (size_t)(i - 1) * b, 'w', i % (b + 1));
+        sim_phase(1); int r = SIM_char_arr_len_bufferify(names, a, b, a); sim_phase(0); res_int(r); free(names);
+    }
     else if (!strcmp(op, "ref_item")) { sim_phase(1); SIM_ref_item(&h[a]); sim_phase(0); res_none(); }
     else if (!strcmp(op, "vec_ret_d")) {
         sim_phase(1); SIM_vec_ret_d_bufferify(a, &d);
